@@ -1079,6 +1079,10 @@ class SQLModel:
             raise KeyError("referred to unknown columns: " + str(missing))
         # get set of columns we need from subquery
         subusing = extend_node.columns_used_from_sources(using=using)[0]
+        if len(subusing) < 1:
+            # the source rows matter even when no source value does (all results constants):
+            # never ask the source for an empty column set
+            subusing = OrderedSet([extend_node.sources[0].column_names[0]])
         subsql = extend_node.sources[0].to_near_sql_implementation_(
             db_model=self, using=subusing, temp_id_source=temp_id_source
         )
@@ -1204,6 +1208,10 @@ class SQLModel:
             using = OrderedSet(project_node.column_names)
         subops = {k: op for (k, op) in project_node.ops.items() if k in using}
         subusing = project_node.columns_used_from_sources(using=using)[0]
+        if len(subusing) < 1:
+            # the number of source rows matters even when no source value does (_size(), (1).sum()):
+            # never ask the source for an empty column set
+            subusing = {project_node.sources[0].column_names[0]}
         terms = {ci: self.expr_to_sql(oi) for (ci, oi) in subops.items()}
         terms.update({g: None for g in project_node.group_by})
         subsql = project_node.sources[0].to_near_sql_implementation_(
